@@ -55,12 +55,15 @@ func TurnOffLiquidVesting(ctx sdk.Context, bk bankkeeper.Keeper, lk liquidvestin
 
 	// Collect all reedem messages
 	var wg sync.WaitGroup
+	// mu guards the two result slices: the workers append to them concurrently,
+	// and an unsynchronised append can lose entries depending on scheduling
+	var mu sync.Mutex
 	accChan := make(chan authtypes.AccountI, 100)
 	worker := func() {
 		defer wg.Done()
 		for acc := range accChan {
-			tryFoundFixScheduleForVestingAccount(acc, &updatedVestingAccounts)
-			processAccount(ctx, acc, storageMap, &redeemsVector)
+			tryFoundFixScheduleForVestingAccount(acc, &updatedVestingAccounts, &mu)
+			processAccount(ctx, acc, storageMap, &redeemsVector, &mu)
 		}
 	}
 
@@ -131,7 +134,7 @@ func collectStorageEntries(ctx sdk.Context, erc20 erc20keeper.Keeper, ek evmkeep
 	return storageMap
 }
 
-func tryFoundFixScheduleForVestingAccount(acc authtypes.AccountI, vestingAccounts *[]haqqvestingtypes.ClawbackVestingAccount) {
+func tryFoundFixScheduleForVestingAccount(acc authtypes.AccountI, vestingAccounts *[]haqqvestingtypes.ClawbackVestingAccount, mu *sync.Mutex) {
 	va, ok := acc.(*haqqvestingtypes.ClawbackVestingAccount)
 	if !ok {
 		return
@@ -149,12 +152,14 @@ func tryFoundFixScheduleForVestingAccount(acc authtypes.AccountI, vestingAccount
 
 	if !(va.OriginalVesting.IsAllGTE(lp.TotalAmount()) && lp.TotalAmount().IsAllGTE(va.OriginalVesting)) {
 		va.LockupPeriods[len(va.LockupPeriods)-1].Amount = va.LockupPeriods[len(va.LockupPeriods)-1].Amount.Add(diff...)
+		mu.Lock()
 		*vestingAccounts = append(*vestingAccounts, *va)
+		mu.Unlock()
 	}
 }
 
 // processAccount processes an account and creates a redeem message if the account has aLIQUID tokens
-func processAccount(ctx sdk.Context, acc authtypes.AccountI, storageMap map[string]map[erc20types.TokenPair]evmtypes.State, redeemsVector *[]liquidvestingtypes.MsgRedeem) {
+func processAccount(ctx sdk.Context, acc authtypes.AccountI, storageMap map[string]map[erc20types.TokenPair]evmtypes.State, redeemsVector *[]liquidvestingtypes.MsgRedeem, mu *sync.Mutex) {
 	addrStr := common.BytesToAddress(acc.GetAddress().Bytes()).String()
 	if addrStr == "0x0000000000000000000000000000000000000000" {
 		return
@@ -178,7 +183,9 @@ func processAccount(ctx sdk.Context, acc authtypes.AccountI, storageMap map[stri
 				// Create a redeem message
 				redeemMsg := liquidvestingtypes.NewMsgRedeem(ownerAddr, ownerAddr, evmBalance)
 				// Append the redeem message to the vector
+				mu.Lock()
 				*redeemsVector = append(*redeemsVector, *redeemMsg)
+				mu.Unlock()
 			}
 		}
 	}
